@@ -12,6 +12,7 @@ import CarModel.Driver.RO
 import CarModel.Driver.Parse
 import CarModel.Driver.Trav
 import CarModel.Driver.Extract
+import CarModel.Driver.Cli
 namespace Car.Driver
 
 structure DState where
@@ -69,6 +70,7 @@ def step (st : DState) (line : String) : DState × String × String :=
     else if fam == "conc" then (st, "race=0 panic=0 deadlock=0 rt=1 final=1", "race=0 panic=0 deadlock=0 rt=1 final=1")
     else if fam == "trav" then let r := famTrav kv; (st, r.1, r.2)
     else if fam == "extract" then let r := famExtract kv; (st, r.1, r.2)
+    else if fam == "cli" then let r := famCli H kv; (st, r.1, r.2)
     else if fam == "root" then
       -- C18: the CID `car root` prints = the single root in the header = the root the engine built
       let w := KV.getD kv "want" ""
